@@ -44,7 +44,9 @@ def real_val(x):
         return z3.RealVal(x)
     if isinstance(x, fractions.Fraction):
         return z3.RealVal(str(x))
-    fr = fractions.Fraction(x)  # exact value of the binary64
+    # mode R: a float denotes the real number its shortest decimal representation names (0.01 is 1/100, not the
+    # neighbouring binary fraction); identical for every dyadic value
+    fr = fractions.Fraction(repr(float(x)))
     return z3.RealVal(str(fr))
 
 
